@@ -1054,7 +1054,8 @@ func c07Run(c *fw.Ctx, i int) {
 						}
 					}
 				}
-				ps = append(ps, ref.PsPes(0xC0, ticks, ticks, false, p, 65000)...)
+				// (an audio frame, or a batch of them, may continue in PES packets that carry no PTS, like video)
+				ps = append(ps, ref.PsPes(0xC0, ticks, ticks, false, p, pesMax)...)
 				if !psmSent && vt != 0 {
 					ai++
 					continue // nothing can be interpreted before the first PSM (sent with the first key frame)
